@@ -30,7 +30,7 @@ class C04(FragHarness, WrapHarness):
             for algo in algos:
                 for split in ('N', 'H', 'C1'):
                     for bw in (True, False):
-                        if q and feat == 'nd' and (split == 'C1' or not bw):
+                        if q and ((feat == 'nd' and (split == 'C1' or not bw)) or (algo == 'O' and (split != 'H' or not bw))):
                             continue
                         out.append({'entry': 'wrap', 'feat': feat, 'algo': algo, 'sep': 'A', 'split': split, 'bw': bw,
                                     'gen': 'sym1', 'n': n1, 'ind': 'both', 'imax': 1, 'le': 'CRLF' if bw else 'LF'})
@@ -53,11 +53,14 @@ class C04(FragHarness, WrapHarness):
         # Unicode separator + adversarial alphabet (ESC fragments, CR/LF, NBSP, ZWSP, SHY, combining, emoji, wide)
         for algo in ('F', 'O'):
             for bw in (True, False):
+                if q and algo == 'O' and not bw:
+                    continue
                 out.append({'entry': 'wrap', 'feat': 'full', 'algo': algo, 'sep': 'U', 'split': 'H', 'bw': bw, 'gen': 'alpha',
-                            'alphabet': ADV[:12] if q else ADV, 'n': 3, 'ind': 'si', 'imax': 1, 'wmax': 1 << 20})
+                            'alphabet': ADV[:9] if q else ADV, 'n': 3, 'ind': 'si' if not q else 'none', 'imax': 1,
+                            'wmax': 1 << 20})
         out.append({'entry': 'words', 'feat': 'full', 'sep': 'U', 'split': 'H', 'gen': 'alpha', 'alphabet': ADV, 'n': 3})
         out.append({'entry': 'refill', 'feat': 'full', 'gen': 'alpha', 'alphabet': ['a', ' ', '\n', '\r', '>', '-', '你'],
-                    'n': 4 if q else 5, 'algo': 'O', 'sep': 'U', 'split': 'H', 'bw': True, 'le': 'LF'})
+                    'n': 3 if q else 5, 'algo': 'O', 'sep': 'U', 'split': 'H', 'bw': True, 'le': 'LF'})
         out.append({'entry': 'wrap_columns', 'feat': 'full', 'algo': 'O', 'sep': 'U', 'split': 'H', 'bw': False, 'cols': 3,
                     'gen': 'alpha', 'alphabet': [' ', 'a', 'Ｈ', '\n'], 'n': 3, 'wmax': 6})
         # extreme widths with optimal-fit: concrete widths (real IEEE arithmetic in the interpreter), alphabet text
@@ -70,7 +73,7 @@ class C04(FragHarness, WrapHarness):
                         'float_mode': 'fp'})
             out.append({'entry': 'algo', 'feat': 'full', 'algo': 'O', 'num': 'int', 'n': n, 'nlw': 2 if n < 3 else 1,
                         'B': 1 << 16, 'LB': 1 << 18, 'SB': 1 << 10, 'PB': 1 << 10, 'sympen': n <= 2})
-        out.append({'entry': 'algo_extreme', 'feat': 'full', 'n': 2 if q else 3})
+        out.append({'entry': 'algo_extreme', 'feat': 'full', 'n': 2 if q else 3, 'full': not q})
         return out
 
     def bounds_text(self, tier):
@@ -145,7 +148,7 @@ class C04(FragHarness, WrapHarness):
 
     def run_algos(self, I, cfg):
         if cfg['entry'] == 'algo_extreme':
-            vals = [0, 1, 1 << 32, 1 << 53, U64MAX]
+            vals = [0, 1, 1 << 32, 1 << 53, U64MAX] if cfg['n'] <= 2 and cfg.get('full') else [0, 1 << 32, U64MAX]
             n = cfg['n']
             fr = [[float(vals[I.choose(len(vals), 'w')]), float([0, 1, U64MAX][I.choose(3, 's')]),
                    float([0, 1][I.choose(2, 'p')])] for _ in range(n)]
